@@ -466,6 +466,13 @@ def big_history(ctx, rng, config):
         deps = sorted(wbgen.dependants(meta, a))
         for d in rng.sample(deps, min(3, len(deps))):
             ops.append(['eval', d])
+    # a whole column of the table (300-600 cells, a range node of the model once INDEX has read it) written in one call;
+    # one of its cells has a reader of its own
+    n_tab = max(int(a.rsplit('CB', 1)[1]) for a in meta['inputs'] if a.startswith('Sheet1!CB'))
+    at = rng.randrange(3, len(ops))
+    ops[at:at] = [['eval', 'Sheet1!D413'], ['eval', 'Sheet1!D415'], ['eval', 'Sheet1!D411'],
+                  ['setr', f'Sheet1!CB1:CB{n_tab}', [[2000 + 7 * i] for i in range(n_tab)]],
+                  ['eval', 'Sheet1!D415'], ['eval', 'Sheet1!D411'], ['eval', 'Sheet1!D413']]
     ctx.count('big_workbook_histories')
     ctx.count('big_workbook_cells', len(meta['order']))
     return one_history(ctx, spec, meta, config, k % 2 == 0, ops=ops)
